@@ -12,8 +12,8 @@
                                                    if closed; fd_entry retain, group enter)
      _dispatch_operation_should_enqueue /
      _dispatch_stream_enqueue_operation            SqSenq
-     _dispatch_stream_handler                      SqPerform (pick + get_error + perform's system
-                                                   call) ; SqFinish (switch on the outcome)
+     _dispatch_stream_handler                      SqPick (pick + get_error) ; SqSyscall (perform's
+                                                   system call) ; SqFinish (switch on the outcome)
      _dispatch_stream_pick_next_operation          PickOne / PickFrom
      _dispatch_operation_perform                   ReadAlloc / WriteAlloc (buffer sizing), the
                                                    outcome classes COMPLETE / DELIVER /
@@ -72,7 +72,9 @@ CONSTANTS MaxOps,    \* operations the client may submit
                      \* demands; "imm_noref", "zero_noerr" = as /repo does (see ImmRef, ImmErr)
           Mut,       \* "none" or a spec mutant
           TraceMode, \* TRUE in IoTrace (kernel buffer sizes unknown, log points precede effects)
-          Liberal,   \* TRUE: aspects the property does not state are left open (trace pass 2)
+          Liberal,   \* "no" | "stop" | "all": aspects the property does not state that are left open:
+                     \* "stop" = how promptly STOP interrupts in-flight work, "all" = also the
+                     \* low-water delivery points (trace validation only)
           Rec        \* TRUE: record the fault schedule (simulation runs that emit schedules)
 
 INF == 1000000000
@@ -352,8 +354,8 @@ CompleteAllIn(S, d, list, stopped, seterr) ==
 
 \* what the library sees of DIO_STOPPED; STOP is "best effort" in the documentation, so the
 \* Liberal mode lets in-flight work miss it
-StopViews == IF "stopped" \in flags THEN (IF Liberal THEN {TRUE, FALSE} ELSE {TRUE}) ELSE {FALSE}
-Forces == IF Liberal THEN {"strict", "yes", "no"} ELSE {"strict"}
+StopViews == IF "stopped" \in flags THEN (IF Liberal # "no" THEN {TRUE, FALSE} ELSE {TRUE}) ELSE {FALSE}
+Forces == IF Liberal = "all" THEN {"strict", "yes", "no"} ELSE {"strict"}
 
 (* ------------------------------ barrier queue ------------------------------ *)
 \* The handler of an operation that is rejected without ever reaching a stream (ECANCELED at
@@ -551,12 +553,13 @@ PerformWrite(d, o, KS(_, _)) ==
      /\ op' = [op EXCEPT ![o] = [r EXCEPT !.err = EKERN]] /\ SetPend(d, o, "COMPLETE")
      /\ UNCHANGED <<kin, kout, consumed, written>>
 
-\* _dispatch_stream_handler up to and including the system call of _dispatch_operation_perform
-SqPerform(d, KS(_, _)) ==
+\* _dispatch_stream_handler: pick the operation, look at the channel's flags (the handler's own
+\* check and the one at the top of _dispatch_operation_perform)
+SqPick(d) ==
   /\ SqHead(d, "handler")
   /\ sq' = [sq EXCEPT ![d] = Tail(@)]
   /\ IF sops[d] = <<>>
-     THEN UNCHANGED <<pend, sops, cur, libvars, kvars, gvars>>          \* no operation found
+     THEN UNCHANGED <<pend, sops, cur, libvars>>          \* no operation found
      ELSE \E stopped \in StopViews :
           IF stopped
           THEN \* err = ECANCELED: op->err = err; complete; goto pick  (and perform's own check:
@@ -565,17 +568,25 @@ SqPerform(d, KS(_, _)) ==
                /\ SetLib(CompleteAllIn(LibS, d, PickFrom(cur[d], sops[d]), TRUE, TRUE))
                /\ sops' = [sops EXCEPT ![d] = <<>>]
                /\ cur' = [cur EXCEPT ![d] = 0]
-               /\ UNCHANGED <<pend, kvars, gvars>>
+               /\ UNCHANGED pend
           ELSE LET o == PickOne(cur[d], sops[d]) IN
                /\ cur' = [cur EXCEPT ![d] = o]
                /\ fdref' = fdref + 1                    \* _dispatch_fd_entry_retain
-               /\ IF d = "R" THEN PerformRead(d, o, KS) ELSE PerformWrite(d, o, KS)
-               /\ UNCHANGED <<sops, opq, grp, dord>>
-  /\ UNCHANGED <<cvars, chvars, chq, bq, bqSusp, srcRun, bars, clvars, hvars, sched, convvars>>
+               /\ SetPend(d, o, "perform")
+               /\ UNCHANGED <<sops, op, opq, grp, dord>>
+  /\ UNCHANGED <<cvars, chvars, chq, bq, bqSusp, srcRun, bars, clvars, kvars, hvars, gvars, sched, convvars>>
+
+\* the rest of _dispatch_operation_perform: buffer set-up and the system call.  The flags are not
+\* looked at again: a STOP (and a peer hangup) that arrive after the check are met by the call
+SqSyscall(d, KS(_, _)) ==
+  /\ pend[d].res = "perform"
+  /\ IF d = "R" THEN PerformRead(d, pend[d].o, KS) ELSE PerformWrite(d, pend[d].o, KS)
+  /\ UNCHANGED <<cvars, chvars, chq, bq, bqSusp, sq, sops, cur, srcRun, opq, grp, fdref, dord, bars, clvars,
+                 hvars, sched, convvars>>
 
 \* the switch on the result, deliveries, completion, re-arming
 SqFinish(d) ==
-  /\ pend[d].o # 0
+  /\ pend[d].o # 0 /\ pend[d].res # "perform"
   /\ pend' = [pend EXCEPT ![d] = NoPend]
   /\ LET o == pend[d].o
          res == pend[d].res
@@ -726,7 +737,7 @@ ClientStop == /\ cstate = "run" /\ mode = "chan" /\ "stop" \in Feat /\ ~stopCall
               /\ CStop /\ cstate' = "burst"
 
 Lib == \/ ChqStep \/ BqStep
-       \/ \E d \in Dirs : SqSenq(d) \/ SqCleanup(d) \/ SqPerform(d, AllK) \/ SqFinish(d) \/ SourceFire(d)
+       \/ \E d \in Dirs : SqSenq(d) \/ SqCleanup(d) \/ SqPick(d) \/ SqSyscall(d, AllK) \/ SqFinish(d) \/ SourceFire(d)
        \/ \E o \in Ops : HandlerRun(o) \/ ConvRun(o)
        \/ \E b \in Bars : BarrierStart(b) \/ BarrierEnd(b)
        \/ CloseQRun \/ CleanupRun \/ ChannelDispose
@@ -745,7 +756,7 @@ Spec == Init /\ [][Next]_vars
 (* fairness: every library executor eventually takes its enabled step; the peer eventually
    closes (EOF) and keeps draining (or hangs up) *)
 Fair == /\ WF_vars(ChqStep) /\ WF_vars(BqStep)
-        /\ \A d \in Dirs : /\ WF_vars(SqSenq(d)) /\ WF_vars(SqCleanup(d)) /\ WF_vars(SqPerform(d, AllK))
+        /\ \A d \in Dirs : /\ WF_vars(SqSenq(d)) /\ WF_vars(SqCleanup(d)) /\ WF_vars(SqPick(d)) /\ WF_vars(SqSyscall(d, AllK))
                            /\ WF_vars(SqFinish(d)) /\ WF_vars(SourceFire(d))
         /\ \A o \in Ops : WF_vars(HandlerRun(o)) /\ WF_vars(ConvRun(o))
         /\ \A b \in Bars : WF_vars(BarrierStart(b)) /\ WF_vars(BarrierEnd(b))
